@@ -35,14 +35,23 @@ def run(ctx):
     fs = ctx.fn(EX + 'query_signature::QuerySignature::from_sql')
     reach = cg.reach([fs.path])
     lossy = []
+    ALLOWED_A = {'normalize', 'new', 'hash', 'finish', 'deref', 'collect', 'join', 'as_str', 'to_string', 'clone', 'to_owned', 'into', 'from',
+                 'with_capacity', 'push_str', 'push', 'len', 'is_empty', 'as_ref', 'borrow', 'fmt', 'write_str', 'default', 'into_iter', 'iter',
+                 'next', 'drop', 'from_sql', 'hash_one', 'write'}
+    import re as _re
     for p in reach:
         f = prog.fns[p]
         if f.unit != 'vibesql_executor':
             continue
-        for _, t in f.calls():
-            sh = (callee_name(t) or '').rsplit('::', 1)[-1]
-            if sh in FOLDS and ('str' in (callee_name(t) or '') or 'String' in (callee_name(t) or '')):
-                lossy.append((f.nice, sh, t['l']))
+        for g_ in [f] + prog.children(f):
+            for _, t in g_.calls():
+                cn = callee_name(t) or ''
+                sh = _re.sub(r'<.*>$', '', cn).rsplit('::', 1)[-1]
+                texty = ('str' in cn or 'String' in cn or 'char' in cn or 'iter' in cn.lower() or 'slice' in cn)
+                if not texty:
+                    continue
+                if sh in FOLDS or sh not in ALLOWED_A:
+                    lossy.append((f.nice, sh, t['l']))
     ctx.instance('a/from_sql', {'rule': 'C25.a', 'reachable_functions': len(reach), 'lossy_text_operations': [f'{a.rsplit("::",1)[1]}:{b}' for a, b, _ in lossy]})
     for sh in sorted({b for _, b, _ in lossy}):
         ctx.finding(f'a/from_sql/{sh}', f'the cache key of a query text is computed after {sh} of the whole text: queries that differ only inside a '
@@ -93,10 +102,25 @@ def run(ctx):
                     for e in s['v']['p'][1]:
                         if e.startswith('.'):
                             read.add(e[1:])
+    from ..engine.cfg import cfg as _cfg
+    gsel = _cfg(fsel)
+    rets = [i for i, b in enumerate(fsel.blocks) if b['t']['k'] == 'return' and not b['t'].get('cleanup')]
+    read_blocks = {}
+    for bi, b in enumerate(fsel.blocks):
+        for s_ in b['s']:
+            if 'd' in s_ and s_['v']['r'] in ('ref', 'discr'):
+                for e in s_['v']['p'][1]:
+                    if e.startswith('.'):
+                        read_blocks.setdefault(e[1:], []).append(bi)
     for fl in need:
-        ctx.instance(f'b/select/{fl}', {'rule': 'C25.b', 'clause': fl, 'read': fl in read})
+        dominates = fl in read_blocks and all(any(gsel.dominates(rb, r) for rb in read_blocks[fl]) for r in rets)
+        ctx.instance(f'b/select/{fl}', {'rule': 'C25.b', 'clause': fl, 'read': fl in read, 'read_on_every_path': dominates})
         if fl not in read:
             ctx.finding(f'b/select/{fl}', f'extract_tables_from_select never looks at SelectStmt.{fl}', fsel.loc)
+        elif fl in read_blocks and not dominates:
+            ctx.finding(f'b/select/{fl}/skipped-on-some-path', f'extract_tables_from_select can return without having looked at SelectStmt.{fl} '
+                        '(an early return before the clause is visited): tables referenced there are not recorded, so writes to them '
+                        'leave the cached result in place', fsel.loc)
 
     # ---------------------------------------------------------------- (c) invalidation reaches both caches
     ctx.rule('C25.c', 'CacheManager::invalidate_table calls both QueryPlanCache::invalidate_table and QueryResultCache::invalidate_table; the '
@@ -116,3 +140,47 @@ def run(ctx):
     ctx.instance('c/QueryResultCache::invalidate_table', {'case_folding_calls': folds})
     if folds == 0:
         ctx.finding('c/result-cache/case', 'QueryResultCache::invalidate_table compares table names case-sensitively (the parser upper-cases identifiers)', ri.loc)
+
+    # a fast path that returns before the scan of the entries is sound only if the structure it consults never forgets a table while an
+    # entry that depends on it is still cached: it must not shrink outside clear()
+    from ..engine.cfg import cfg as _cfg2
+    from ..engine.symexpr import Sym as _Sym
+    from . import shared as _shared
+    gri = _cfg2(ri)
+    scans = [i for i, t in ri.calls() if _re.search(r'::retain(<|$)', callee_name(t) or '')]
+    rets2 = [i for i, b in enumerate(ri.blocks) if b['t']['k'] == 'return' and not b['t'].get('cleanup')]
+    ctx.instance('c/QueryResultCache::invalidate_table/scan', {'retain_calls': len(scans), 'returns': len(rets2)})
+    ctx.require(scans, 'QueryResultCache::invalidate_table: scan of the entries (retain) not found')
+    from ..engine.paths import search as _search
+    reached, _ = _search(ri, [0], set(scans), loop_model=False)
+    early = [r for r in rets2 if r in reached]
+    if early:
+        sy = _Sym(ri)
+        guards = set()
+        for sblk in gri.reachable():
+            t = ri.blocks[sblk]['t']
+            if t['k'] == 'switch' and not any(gri.dominates(sc, sblk) for sc in scans):
+                c = _shared.switch_condition(ri, sblk, sy)
+                for m in _re.finditer(r'self\.([a-z_]+)', c):
+                    guards.add(m.group(1))
+        shrinks = []
+        for f in prog.fns.values():
+            if f.unit == 'vibesql_executor' and 'query_result_cache::QueryResultCache' in f.nice and not f.nice.endswith('::clear'):
+                sf = _Sym(f)
+                for i, t in f.calls():
+                    op = _re.sub(r'<.*>$', '', callee_name(t) or '').rsplit('::', 1)[-1]
+                    if op in ('remove', 'retain', 'take', 'drain', 'clear') and t['args']:
+                        recv = sf.op(t['args'][0])
+                        if f.is_closure():
+                            from ..engine.panics import _expand_upvar
+                            base = _re.match(r'^[A-Za-z_][A-Za-z_0-9]*', recv)
+                            if base:
+                                recv = _expand_upvar(prog, f, base.group(0)) + recv[len(base.group(0)):]
+                        for gname in guards:
+                            if gname in recv and gname != 'cache':
+                                shrinks.append((f.nice, op, gname))
+        ctx.instance('c/QueryResultCache::invalidate_table/fast-path', {'guard_fields': sorted(guards), 'shrinking_sites': shrinks})
+        if shrinks or not guards:
+            ctx.finding('c/result-cache/fast-path-forgets', 'QueryResultCache::invalidate_table returns before scanning the entries when '
+                        f'self.{"/".join(sorted(guards)) or "?"} does not contain the table, but that structure is shrunk ({shrinks[:2]}) while entries that depend '
+                        'on the removed names may still be cached: a later write to such a table invalidates nothing', ri.loc)
